@@ -158,6 +158,8 @@ def preserve_monitor(ctx):
                     bad = bad or "the pulled-out entry was not replaced by the identity"
                 if (t >> k) & 1 and out[1, 0] != 0:
                     bad = bad or f"(b) fails: level {k}, the pulled-out gate does not send |0> to a multiple of |0>"
+                if (t >> k) & 1 and abs(abs(out[0, 0]) - 1) > 1e-12:
+                    bad = bad or f"level {k}: the pulled-out gate scales |0> by a factor of modulus {abs(out[0, 0])!r} (premise of C12_preserve_factor_unit)"
             # the pulled-out gates are controlled on every other qubit holding its target bit
             for inst in circ.data:
                 op = inst.operation
@@ -185,7 +187,7 @@ def replay(ctx, case):
 
 
 MANIFEST = dict(
-    text='Proof (MODULAR/PARTIAL): the 2x2 operators chosen by _build_multiplexor map the normalised child pair to e_bit for both target bits and for the vanishing-|0>-child case, and are unitary (C12_branch0/1, C12_diag0/1, C12_G0_unitary; any field with involution); induction over the levels with the carried diagonal: if the operators of every level disentangle their child pairs and the next children are diagonal * parent, the n levels map the vector to (last child)|t> for every n, t and vector (C12_level_step, C12_levels_target). Tie: every operator list built during a run is checked against these statements, every UCGate against the contract diag(_get_diagonal())*circuit = multiplexer, every _apply_diagonal result against diagonal * parent. The preserve option: in preserve mode the pulled-out entry makes level k apply gp k only when every other qubit holds its target bit; if the multiplexer entries below the path are identities and gp k keeps |0> when target bit k is 1 (both checked exactly on every preserve-mode run with a vector vanishing below the target index, together with the control pattern of the pulled-out gates), every basis state below the target index is mapped to itself times a product of phases, for every n (C12_preserve_below_target, C12_levels_keep_basis). Column t, the preserve clause and UCGE are also evaluated directly.',
+    text='Proof (MODULAR/PARTIAL): the 2x2 operators chosen by _build_multiplexor map the normalised child pair to e_bit for both target bits and for the vanishing-|0>-child case, and are unitary (C12_branch0/1, C12_diag0/1, C12_G0_unitary; any field with involution); induction over the levels with the carried diagonal: if the operators of every level disentangle their child pairs and the next children are diagonal * parent, the n levels map the vector to (last child)|t> for every n, t and vector (C12_level_step, C12_levels_target). Tie: every operator list built during a run is checked against these statements, every UCGate against the contract diag(_get_diagonal())*circuit = multiplexer, every _apply_diagonal result against diagonal * parent. The preserve option: in preserve mode the pulled-out entry makes level k apply gp k only when every other qubit holds its target bit; if the multiplexer entries below the path are identities and gp k keeps |0> when target bit k is 1 (both checked exactly on every preserve-mode run with a vector vanishing below the target index, together with the control pattern of the pulled-out gates), every basis state below the target index is mapped to itself times a product of phases, for every n (C12_preserve_below_target, C12_levels_keep_basis), and that product has modulus one when the factors have (C12_preserve_factor_unit). Column t, the preserve clause and UCGE are also evaluated directly.',
     note="Modelled, not verified: Qiskit UCGate synthesis and inverse(); preserve option; UCGE simplification.",
     technique='Coq/mathcomp proof + runtime contract monitors + operator-column evaluation',
     design_ref='DESIGN.md section 4, C12')
